@@ -128,15 +128,14 @@ package core
 //@ func (*LinearState).doFindRules
 //@   assert[C07.lin_findrules_never_emits_expired] at "acc[id]": !expiredAt(rf.M, now)
 
-// ghost: id of an expired stored record whose removal from storage is still owed by Load
-//@ ghost owed string
+// ghost: how many stored records add() has refused as expired, and the id of the last one
+//@ ghost refusals int
+//@ ghost lastRefused string
 //@ func (*IndexedState).add
-//@   ghost-ensures ite(is(result1, *ExpiredError), owed == id, owed == old(owed))
-//@   also-modifies owed
+//@   ghost-ensures ite(is(result1, *ExpiredError), refusals == old(refusals) + 1 && lastRefused == id, refusals == old(refusals) && lastRefused == old(lastRefused))
+//@   also-modifies refusals, lastRefused
 // Storage back ends are assumed not to modify contexts, states, locations or the states' fact tables.
 //@ iface Storage.Remove
-//@   ghost-ensures ite(result1 == nil && old(str(k)) == old(owed), owed == "", owed == old(owed))
-//@   also-modifies owed
 //@   modifies allbut(F:core.Context.|F:core.IndexedState.|F:core.LinearState.|F:core.Location.|MD:string:map[string]interface{}|MV:string:map[string]interface{}|ML:string:map[string]interface{}|MD:string:struct{M|MV:string:struct{M|ML:string:struct{M|MD:string:*core.Rule|MV:string:*core.Rule|ML:string:*core.Rule)
 //@ iface Storage.Add
 //@   modifies allbut(F:core.Context.|F:core.IndexedState.|F:core.LinearState.|F:core.Location.|MD:string:map[string]interface{}|MV:string:map[string]interface{}|ML:string:map[string]interface{}|MD:string:struct{M|MV:string:struct{M|ML:string:struct{M|MD:string:*core.Rule|MV:string:*core.Rule|ML:string:*core.Rule)
@@ -146,10 +145,14 @@ package core
 //@   modifies allbut(F:core.Context.|F:core.IndexedState.|F:core.LinearState.|F:core.Location.|MD:string:map[string]interface{}|MV:string:map[string]interface{}|ML:string:map[string]interface{}|MD:string:struct{M|MV:string:struct{M|ML:string:struct{M|MD:string:*core.Rule|MV:string:*core.Rule|ML:string:*core.Rule)
 //@ iface Storage.Delete
 //@   modifies allbut(F:core.Context.|F:core.IndexedState.|F:core.LinearState.|F:core.Location.|MD:string:map[string]interface{}|MV:string:map[string]interface{}|ML:string:map[string]interface{}|MD:string:struct{M|MV:string:struct{M|ML:string:struct{M|MD:string:*core.Rule|MV:string:*core.Rule|ML:string:*core.Rule)
+// Load remembers every record that add() refuses as expired and, once everything else is indexed, removes each of them from
+// the store (a removal per refusal, of the remembered id, or Load fails).
 //@ func (*IndexedState).Load
-//@   assume-entry owed == ""
-//@   loop 1: invariant[C07.ix_load_purges_expired] owed == ""
-//@   ensures[C07.ix_load_purges_expired_exit] result == nil ==> owed == ""
+//@   loop 1: invariant[C07.ix_load_remembers_every_expired_record] len(expired) == refusals - old(refusals) && stRems == old(stRems)
+//@   assert[C07.ix_load_remembers_the_refused_id] at "append(expired, id)": lastRefused == id
+//@   loop 2: invariant[C07.ix_load_purges_expired] len(expired) == refusals - old(refusals) && rangeindex < len(expired) && stRems >= old(stRems) + rangeindex + 1
+//@   assert[C07.ix_load_purges_the_remembered_id] at "s.Store.Remove(": str(callarg(2)) == expired[rangeindex + 1]
+//@   ensures[C07.ix_load_purges_expired_exit] result == nil ==> stRems >= old(stRems) + (refusals - old(refusals))
 
 // ---- C20: limits ---------------------------------------------------------------------------
 // Functions handed to a breaker or throttle are assumed not to touch that breaker's / throttle's own fields.
@@ -585,14 +588,15 @@ package core
 //@ ghost stRems int
 //@ ghost stAddLoc string
 //@ ghost stAddKey string
+//@ ghost stRemKey string
 //@ ghost stErr bool gate
 //@ ghost remErr bool gate
 //@ iface Storage.Add
 //@   ghost-ensures stAdds == old(stAdds) + 1 && stAddLoc == loc && stAddKey == old(str(data.K)) && stErr == (old(stErr) || result != nil)
 //@   also-modifies stAdds, stAddLoc, stAddKey, stErr
 //@ iface Storage.Remove
-//@   ghost-ensures stRems == old(stRems) + 1 && stErr == (old(stErr) || result1 != nil)
-//@   also-modifies stRems, stErr
+//@   ghost-ensures stRems == old(stRems) + 1 && stRemKey == old(str(k)) && stErr == (old(stErr) || result1 != nil)
+//@   also-modifies stRems, stRemKey, stErr
 //@ iface Storage.Clear
 //@   ghost-ensures stErr == (old(stErr) || result1 != nil)
 //@   also-modifies stErr
@@ -617,8 +621,13 @@ package core
 //@   ensures[C06.lin_clear_storage_error_is_reported] stErr ==> result != nil
 //@ func (*LinearState).Delete
 //@   ensures[C06.lin_delete_storage_error_is_reported] stErr ==> result != nil
+// (once the purge cascade has run, a storage error may be one that its search swallowed by design - see below; the cascade's
+// own errors are reported)
 //@ func (*IndexedState).Load
-//@   ensures[C06.ix_load_storage_error_is_reported] stErr ==> result != nil
+//@   ensures[C06.ix_load_storage_error_is_reported] stErr && cascades == old(cascades) ==> result != nil
+//@   ensures[C06.ix_load_cascade_error_is_reported] remErr ==> result != nil
+//@   loop 1: invariant[C06.ix_load_loop_runs_no_cascade] cascades == old(cascades)
+//@   loop 2: invariant[C06.ix_load_purge_loop] !remErr && (!stErr || cascades > old(cascades)) && cascades >= old(cascades)
 
 //@ func (*IndexedState).rem
 //@   ensures[C08.ix_rem_removes_the_id]     result1 == nil ==> !has(s.IdToFact, id)
@@ -991,11 +1000,15 @@ package core
 //@ define piKeepsBranches() = forall(n, *PatternIndex, !fresh(n) ==> (old(n.Var) != nil ==> n.Var == old(n.Var) || emptyNode(old(n.Var))) && (old(n.Map) != nil ==> n.Map == old(n.Map) || emptyNode(old(n.Map))) && (old(n.String) != nil ==> n.String == old(n.String)) && (old(n.Ids) != nil ==> n.Ids == old(n.Ids)))
 //@ define piKeepsKeys() = forall(m, map[string]*PatternIndex, forall(k, string, !fresh(m) && old(has(m, k)) ==> (has(m, k) && m[k] == old(m[k])) || emptyNode(old(m[k]))))
 //@ define piKeepsOtherIds(id) = forall(s, StringSet, forall(x, string, !fresh(s) && x != id && old(has(s, x)) ==> has(s, x)))
+//@ define restLast(r) = len(r) >= len(pairs) - 1 && forall(i, int, 0 <= i && i < len(pairs) - 1 ==> r[len(r) - (len(pairs) - 1) + i] == pairs[1 + i])
 //@ func (*PatternIndex).mod
 //@   ensures[C01.pi_mod_never_detaches_a_branch] piKeepsBranches()
 //@   ensures[C01.pi_mod_never_drops_a_key]       piKeepsKeys()
 //@   ensures[C01.pi_mod_keeps_other_ids]         piKeepsOtherIds(id)
 //@   ensures[C01.pi_add_adds_no_foreign_id]      forall(s, StringSet, forall(x, string, !fresh(s) && x != id && has(s, x) ==> old(has(s, x))))
+//@   assert[C01.pi_mod_descends_with_all_remaining_pairs] at "call:mod": len(callarg(1)) >= len(pairs) - 1
+//@   assert[C01.pi_mod_descends_for_the_same_id_and_op]   at "call:mod": callarg(2) == id && callarg(3) == op
+//@   assert[C01.pi_mod_descends_with_the_remaining_pairs_last] at "call:mod": restLast(callarg(1))
 
 // ---- C01: the trie's read path never writes the trie ---------------------------------------------
 //@ define ssOthersUnchanged(s) = forall(t, StringSet, t != s ==> len(t) == old(len(t))) && forall(t, StringSet, forall(y, string, t != s ==> has(t, y) == old(has(t, y))))
@@ -1011,6 +1024,8 @@ package core
 //@   ensures[C01.pi_search_leaves_nodes_alone] piNodesUnchanged()
 //@   ensures[C01.pi_search_leaves_keys_alone]  piKeysUnchanged()
 //@   ensures[C01.pi_search_leaves_ids_alone]   piIdsUnchanged()
+//@   assert[C01.pi_search_descends_with_all_remaining_pairs] at "call:searchPairs": len(callarg(1)) >= len(pairs) - 1
+//@   assert[C01.pi_search_map_value_descends_with_the_remaining_pairs_last] at "call:searchPairs@Map": restLast(callarg(1))
 //@   loop 2: invariant[C01.pi_search_loop] piNodesUnchanged() && piKeysUnchanged() && piIdsUnchanged()
 
 // C02: "searching returns exactly the stored facts that match": when add() stores the fact, the id is in the term index under
@@ -1031,12 +1046,13 @@ package core
 // C08: "deleteWith removes exactly the dependents": every successful removal of an id runs the dependents cascade for that id
 // (in both state implementations; the cascade is observed through a ghost record of the id it last completed for).
 //@ ghost cascadeId string
+//@ ghost cascades int
 //@ func (*LinearState).deleteDependencies
-//@   ghost-ensures cascadeId == id
-//@   also-modifies cascadeId
+//@   ghost-ensures cascadeId == id && cascades == old(cascades) + 1
+//@   also-modifies cascadeId, cascades
 //@ func (*IndexedState).deleteDependencies
-//@   ghost-ensures cascadeId == id
-//@   also-modifies cascadeId
+//@   ghost-ensures cascadeId == id && cascades == old(cascades) + 1
+//@   also-modifies cascadeId, cascades
 //@ func (*LinearState).rem
 //@   assume-entry cascadeId == "?none"
 //@   ensures[C08.lin_rem_always_runs_the_cascade] result1 == nil ==> cascadeId == id
@@ -1173,11 +1189,25 @@ package core
 
 // C08/C10: whatever is removed from storage is removed through rem(), which runs the dependents cascade: a record purged at
 // load time must not leave its dependents (a rule's "disabled" flag, its deleteWith facts) behind.
-// KNOWN FINDING D50: IndexedState.Load purges a record that expired while the location was not in memory with a bare
-// Store.Remove (no cascade).
+// (D50, repaired: IndexedState.Load purged a record that expired while the location was not in memory with a bare
+// Store.Remove, without the cascade.)
 //@ func (*IndexedState).Load
-//@   assume-entry cascadeId == "?none"
-//@   ensures[C08+C10.ix_load_purges_with_the_cascade] stRems > old(stRems) ==> cascadeId != "?none"
+//@   ensures[C08+C10.ix_load_purges_with_the_cascade] result == nil ==> cascades - old(cascades) >= refusals - old(refusals)
+//@   assert[C08+C10.ix_load_cascades_for_the_purged_id] at "call:deleteDependencies": callarg(1) == stRemKey
+//@   loop 1: invariant[C08+C10.ix_load_first_loop_removes_nothing] stRems == old(stRems) && cascades == old(cascades) && len(expired) == refusals - old(refusals)
+//@   loop 2: invariant[C08+C10.ix_load_cascade_per_purged_record] len(expired) == refusals - old(refusals) && rangeindex < len(expired) && cascades >= old(cascades) + rangeindex + 1
 // (LinearState.Load purges nothing: expired records are dropped by the first search that meets them, through rem())
 //@ func (*LinearState).Load
 //@   ensures[C08+C10.lin_load_removes_nothing_from_storage] stRems == old(stRems)
+
+// C04: "with exactly those bindings (plus event, location and ruleId) visible to the action": ExecAction installs the
+// action's private copy of the event in the binding set after the thunk has been built, so the thunk reads the binding
+// set when it runs, not when it is built.
+//@ ghost strips int
+//@ func (*Bindings).StripQuestionMarks
+//@   ghost-ensures strips == old(strips) + 1
+//@   also-modifies strips
+//@ func (*Location).getActionFunc$1
+//@   assert[C04.script_variables_are_read_when_the_action_runs] at "call:RunJavascript": strips > old(strips)
+//@ func (*OttoActionInterpreter).GetThunk$1
+//@   assert[C04.otto_script_variables_are_read_when_the_action_runs] at "call:RunJavascript": strips > old(strips)
